@@ -59,6 +59,8 @@ def run(ctx):
     ctx.do(rule_no_hidden_state, "C19.history-independence")
     from .pitfalls import rule_loops_not_cut_short
     ctx.do(rule_loops_not_cut_short, "C19.loops-complete")
+    from .pitfalls import rule_definite_assignment
+    ctx.do(rule_definite_assignment, "C19.definite-assignment")
 
 
 def _registry_facts(fi):
